@@ -1,2 +1,3 @@
 import FpgoVerif.Props.C19
 /-! `#print axioms` for every property theorem of C19; parsed by `check`. -/
+#print axioms FpgoVerif.C19.C19_sort_perm
